@@ -696,7 +696,9 @@ pub fn analyse(rep: &RunReport) -> Verdict {
             }
             if let Some(Some(n)) = snap.strong.get(o) {
                 let keepers = world.hrec.iter().filter(|h| h.kind == Kind::FutureSync && h.dropped_at.map_or(true, |x| x > snap.seq) && h.op.map_or(false, |op| ops[op as usize].obj == Some(o) && ops[op as usize].inv.map_or(false, |i| i < snap.seq))).count();
-                if *n > 1 + keepers {
+                // (another pipe into the same object whose output is still alive holds a reference of its own)
+                let other_pipes = world.outs.iter().enumerate().filter(|(oj, osj)| *oj != oi && osj.src.map_or(false, |s2| world.streams[s2].obj == Some(o) && world.streams[s2].pipe_op.map_or(false, |p| ops[p as usize].kind == Kind::Pipe && ops[p as usize].inv.is_some())) && osj.dropped_at.map_or(true, |x| x > snap.seq)).count();
+                if *n > 1 + keepers + other_pipes {
                     v(&mut out, "C16", "strong_reference_kept", &[pid], snap.seq, format!("output {} of pipe {} was dropped but the pipe still holds a strong reference on object {} at quiescence (count {})", oi, pid, o, n));
                 }
             }
